@@ -32,6 +32,7 @@ type scn struct {
 	ExtraHeaders int
 	NoExtName    bool // external data without a table name (the library supplies the default)
 	DeepExc      int  // the terminal exception carries this many nested causes
+	PrefaceExc   bool // an earlier query on the same client ended with a server exception
 }
 
 var scenarios = []scn{
@@ -47,6 +48,8 @@ var scenarios = []scn{
 	{Name: "select-exception", EndsExc: true},
 	{Name: "insert-exception", Insert: true, Stream: 2, EndsExc: true},
 	{Name: "select-deep-exception", EndsExc: true, DeepExc: 40},
+	{Name: "select-after-exception", Telemetry: true, PrefaceExc: true},
+	{Name: "insert-stream-after-exception", Insert: true, Stream: 2, PrefaceExc: true},
 }
 
 // fault is one planned perturbation.
@@ -144,6 +147,7 @@ func runScenarioWith(sc scn, seed int64, f *fault, readTimeout time.Duration, ba
 	var mu sync.Mutex
 	counts := map[string]int{}
 	frozen := false
+	prefacing := false
 	script := &simnet.Script{Rev: 54460}
 	sim := newSim(script)
 	if seed%2 == 1 {
@@ -223,6 +227,11 @@ func runScenarioWith(sc scn, seed int64, f *fault, readTimeout time.Duration, ba
 	// gate: called at every gate occurrence (any goroutine).
 	gate := func(name string) (failCallback bool) {
 		mu.Lock()
+		if prefacing {
+			// the client's earlier history is not part of the query under test
+			mu.Unlock()
+			return false
+		}
 		n := counts[name]
 		counts[name] = n + 1
 		full := name
@@ -270,7 +279,10 @@ func runScenarioWith(sc scn, seed int64, f *fault, readTimeout time.Duration, ba
 	data := func(rows int) []byte {
 		return simnet.PacketData(54460, ref.ServerDataCode, scnBlock(rng, rows), compressed, ref.MethodLZ4)
 	}
-	script.OnQuery = func(*ref.Query) []simnet.Item {
+	script.OnQuery = func(rq *ref.Query) []simnet.Item {
+		if rq.Body == "PREFACE" {
+			return []simnet.Item{{Data: simnet.PacketException([]ref.Exception{{Code: 60, Name: "DB::Exception", Message: "no such table (preface)"}})}}
+		}
 		if sc.Insert {
 			hs := [][]byte{data(0)}
 			for i := 0; i < sc.ExtraHeaders; i++ {
@@ -308,7 +320,7 @@ func runScenarioWith(sc scn, seed int64, f *fault, readTimeout time.Duration, ba
 		items[len(items)-1].Final = true
 		return items
 	}
-	sim.Srv.InputExpected = func(*ref.Query) bool { return sc.Insert }
+	sim.Srv.InputExpected = func(rq *ref.Query) bool { return sc.Insert && rq.Body != "PREFACE" }
 
 	// the query
 	q := ch.Query{Body: "Q " + sc.Name, QueryID: "qid"}
@@ -382,6 +394,24 @@ func runScenarioWith(sc scn, seed int64, f *fault, readTimeout time.Duration, ba
 	}
 	client = c
 	sim.Client = c
+	if sc.PrefaceExc {
+		// the client has history: an earlier query on it ended with a server exception (after
+		// which the client legitimately stays open)
+		pctx, pcancel := context.WithTimeout(context.Background(), 10*time.Second)
+		mu.Lock()
+		prefacing = true
+		mu.Unlock()
+		perr := c.Do(pctx, ch.Query{Body: "PREFACE"})
+		mu.Lock()
+		prefacing = false
+		mu.Unlock()
+		pcancel()
+		if !ch.IsException(perr) || c.IsClosed() {
+			out.Err = fmt.Errorf("preface query: %v (closed=%v)", perr, c.IsClosed())
+			out.Returned = true
+			return out
+		}
+	}
 	out.HandshakeW = sim.Conn.WrittenBytes()
 	out.HandshakeR = sim.Conn.Delivered()
 	mu.Lock()
